@@ -46,7 +46,7 @@ CONSTANTS
 
 K == "K"                      \* the framework's own finalizer
 NeverRv == 1000000            \* "<rv>~which~never~arrives"
-NoRec == [st |-> "none", r |-> 0, pu |-> "none", until |-> 0]
+NoRec == [st |-> "none", r |-> 0, pu |-> "none", until |-> 0, first |-> 0]      \* first: when the record was created (`started`), kept only if some handler has a timeout
 Range(s) == {s[i] : i \in DOMAIN s}
 Finished(p) == p.st \in {"succ", "fail"}
 MinOf(S) == CHOOSE x \in S : \A y \in S : x <= y
@@ -76,6 +76,11 @@ Order == conf.order
 Lifecycle == conf.lifecycle
 CTimeout == conf.ctimeout
 Registered == {h \in H : HC[h].reasons # {}}
+
+\* handler timeouts (optional field of a handler's configuration; 0 = none): no attempt starts later than T after the first one
+TimeoutOf(h) == IF "timeout" \in DOMAIN HC[h] THEN HC[h].timeout ELSE 0
+AnyTimeout == \E h \in H : TimeoutOf(h) > 0
+FirstNow == IF AnyTimeout THEN now ELSE 0
 
 \* sub-handlers (optional): conf.subs = [parent id |-> the ids its function registers with @kopf.subhandler, in that order]; the ids
 \* are members of H that are not registered at the top level (their HC entry carries the defaults of a sub-handler)
@@ -246,7 +251,7 @@ Prepared(s, reason, sel) ==
   \* (State.from_storage loads the records of the handlers registered at the top level only: Top)
   LET extras0 == {s.prog[h].pu : h \in {x \in Top : s.prog[x].st # "none"}} \ {"none", reason}
       rec(h) == IF h \in sel
-                THEN IF s.prog[h].st = "none" THEN [st |-> "pend", r |-> 0, pu |-> reason, until |-> 0]
+                THEN IF s.prog[h].st = "none" THEN [st |-> "pend", r |-> 0, pu |-> reason, until |-> 0, first |-> FirstNow]
                      ELSE IF extras0 # {} THEN [s.prog[h] EXCEPT !.pu = reason] ELSE s.prog[h]
                 ELSE s.prog[h]
       np == [h \in H |-> rec(h)]
@@ -381,16 +386,19 @@ CWaitTimeout ==   \* the consistency timeout has elapsed since the patch: assume
 (***************************************************************************)
 Outcomes == {[k |-> "ok", d |-> 0], [k |-> "perm", d |-> 0], [k |-> "exc", d |-> 0]} \cup {[k |-> "temp", d |-> d] : d \in Delays}
 
-After(p, h, o) ==       \* HandlerState.with_outcome + the look-ahead of the retries limit
+After(p, h, o) ==       \* HandlerState.with_outcome + the look-ahead of the retries limit and of the timeout
   LET r2 == p.r + 1
       last == HC[h].retries # 0 /\ r2 >= HC[h].retries
+      late(d) == TimeoutOf(h) > 0 /\ (now - p.first) + d >= TimeoutOf(h)      \* the next attempt would start after the timeout
   IN CASE o.k = "ok"   -> [p EXCEPT !.st = "succ", !.r = r2, !.until = 0]
        [] o.k = "perm" -> [p EXCEPT !.st = "fail", !.r = r2, !.until = 0]
-       [] o.k = "temp" -> IF last THEN [p EXCEPT !.st = "fail", !.r = r2, !.until = 0]
+       [] o.k = "temp" -> IF last \/ late(o.d) THEN [p EXCEPT !.st = "fail", !.r = r2, !.until = 0]
                           ELSE [p EXCEPT !.st = "retry", !.r = r2, !.until = now + o.d]
        [] o.k = "exc"  -> IF HC[h].mode = "ignored" THEN [p EXCEPT !.st = "succ", !.r = r2, !.until = 0]
-                          ELSE IF HC[h].mode = "permanent" \/ last THEN [p EXCEPT !.st = "fail", !.r = r2, !.until = 0]
+                          ELSE IF HC[h].mode = "permanent" \/ last \/ late(HC[h].backoff) THEN [p EXCEPT !.st = "fail", !.r = r2, !.until = 0]
                           ELSE [p EXCEPT !.st = "retry", !.r = r2, !.until = now + HC[h].backoff]
+\* the strict check before an attempt: the handler has timed out (e.g. over a downtime) - it fails for good without being called
+TimedOut(h, p) == TimeoutOf(h) > 0 /\ now - p.first >= TimeoutOf(h)
 
 LastOf(h, p) == [h |-> h, retry |-> p.r, reason |-> cyc.reason, rv |-> cyc.s.rv,
                  deleting |-> cyc.s.deleting, blocked |-> Blocked(cyc.s),
@@ -404,8 +412,13 @@ GhAfter(h, q, k) ==
              !.cseen[h] = IF q.st = "succ" THEN cyc.s.ess ELSE @,
              !.deldone = IF cyc.reason = "delete" /\ Finished(q) THEN @ \cup {h} ELSE @,
              !.resumed[h] = IF "resume" \in HC[h].reasons /\ HC[h].reasons = {"resume"} /\ Finished(q) THEN @ + 1 ELSE @]
+InvokeTimeout(h) ==
+  /\ up /\ pc = "plan" /\ cyc.plan # <<>> /\ Head(cyc.plan) = h /\ TimedOut(h, cyc.np[h])
+  /\ LET p == cyc.np[h]  q == [p EXCEPT !.st = "fail", !.r = p.r + 1, !.until = 0]
+     IN cyc' = [cyc EXCEPT !.plan = Tail(@), !.np[h] = q, !.inv = @ \cup {h}] /\ gh' = GhAfter(h, q, "timeout")
+  /\ UNCHANGED <<obj, chan, bl, up, stopping, mem, wk, pc, now, bud>>
 InvokeWith(h, o) ==
-  /\ up /\ pc = "plan" /\ cyc.plan # <<>> /\ Head(cyc.plan) = h
+  /\ up /\ pc = "plan" /\ cyc.plan # <<>> /\ Head(cyc.plan) = h /\ ~TimedOut(h, cyc.np[h])
   /\ (o.k # "ok" => bud.fails < MaxFails)
   /\ LET p == cyc.np[h]
          q == After(p, h, o)
@@ -413,7 +426,7 @@ InvokeWith(h, o) ==
         THEN \* the function has registered its sub-handlers and returned: they are executed in its context (subhandling.execute):
              \* their records are those of the view (new ones are created for the cause), the lifecycle picks among the awake ones
              LET S == Range(SubOf(h))
-                 rec(x) == IF cyc.s.prog[x].st = "none" THEN [st |-> "pend", r |-> 0, pu |-> cyc.reason, until |-> 0] ELSE cyc.s.prog[x]
+                 rec(x) == IF cyc.s.prog[x].st = "none" THEN [st |-> "pend", r |-> 0, pu |-> cyc.reason, until |-> 0, first |-> FirstNow] ELSE cyc.s.prog[x]
                  np1 == [x \in H |-> IF x \in S THEN rec(x) ELSE cyc.np[x]]
                  todo == {x \in S : Awake(np1[x])}
              IN /\ cyc' = [cyc EXCEPT !.np = np1, !.sub = [p |-> h, plan |-> PlanIn(SubOf(h), todo, np1)], !.last = LastOf(h, p)]
@@ -442,6 +455,7 @@ ParentEnd ==          \* the sub-handlers chosen for this round have run: done i
   /\ pc' = "plan"
   /\ UNCHANGED <<obj, chan, bl, up, stopping, mem, wk, now, bud>>
 Invoke == /\ \/ \E h \in H : \E o \in Outcomes : InvokeWith(h, o) \/ InvokeSub(h, o)
+             \/ \E h \in H : InvokeTimeout(h)
              \/ ParentEnd
           /\ UNCHANGED conf
 
@@ -679,6 +693,8 @@ CloseExactlyWhenDone ==
 FreshOrTimedOut == L.h # "none" => (L.ownrv = 0 \/ L.rv >= L.ownrv \/ CTimeout = 0 \/ now >= L.owntime + CTimeout)
 \* C11: the retries limit bounds the recorded attempts; a handler is never invoked before its delay has elapsed
 RetriesBounded == \A h \in H : HC[h].retries # 0 => obj.prog[h].r <= HC[h].retries
+\* C11: no attempt of a handler with a timeout starts later than the timeout after its first one
+NoLateAttempt == L.h # "none" => (TimeoutOf(L.h) = 0 \/ now - cyc.s.prog[L.h].first < TimeoutOf(L.h) \/ cyc.s.prog[L.h].st = "none")
 \* C15 (stealth): processing a view that no handler matches writes nothing but the withdrawal of the finalizer
 \* (together with which the framework's own touch marker may be cleared)
 Stealth == ~gh.blindwrite
